@@ -57,6 +57,11 @@ def check(ck: Checker) -> None:
 
     _r4.post_copy_covers_all(ck, "C07.verify")
     _r4.check_removal_strict(ck, "C07.check")
+    from . import round7 as _r7
+
+    _r7.protect_always_chmods(ck, "C07.localtrust")
+    _r7.exists_missing_only_by_check(ck, "C07.exists")
+    _r7.failed_copy_never_trusted(ck, "C07.verify")
 
 
 
